@@ -18,6 +18,9 @@ os.environ.setdefault("MPLBACKEND", "Agg")
 os.environ.setdefault("PYTHONDONTWRITEBYTECODE", "1")
 os.environ.setdefault("PYTHONHASHSEED", "0")
 os.environ.setdefault("TQDM_DISABLE", "1")
+# 16 shard processes: keep BLAS/OpenMP from spawning 16 threads each (pure start-up cost here)
+for _v in ("OPENBLAS_NUM_THREADS", "OMP_NUM_THREADS", "MKL_NUM_THREADS", "NUMEXPR_NUM_THREADS"):
+    os.environ.setdefault(_v, "1")
 # hooks in /repo (none needed so far) would be guarded by this variable
 os.environ.setdefault("PYREPSEQ_VERIF", "1")
 sys.dont_write_bytecode = True
